@@ -530,3 +530,9 @@ stem_stage!(c19_k_stem_stage_7, 7);
 stem_stage!(c19_k_stem_stage_8, 8);
 stem_stage!(c19_k_stem_stage_9, 9);
 // (with a symbolic stem the same harness does not finish in 8 min: one harness per stem it is.)
+
+/// constructor for harnesses in other modules: an instant-view object with the given day and hour pillars
+pub fn mk_sixty_hour(dp: isize, hp: isize) -> SixtyCycleHour {
+  SixtyCycleHour { solar_time: mk_time(2000, 1, 1, 0, 0, 0),
+    day: SixtyCycleDay { solar_day: mk_day(2000, 1, 1), month: SixtyCycleMonth { year: SixtyCycleYear { year: 2000 }, month: cheap_cycle(0) }, day: cheap_cycle(dp) }, hour: cheap_cycle(hp) }
+}
